@@ -85,7 +85,7 @@ seeded changes and which check catches which in §11.
   `wrap`'s functional postcondition (U11) —, the real
   tables of `unicode-linebreak` / `unicode-width` / `smawk` behind the assumed shapes.
 * **Robustness of the machinery** (§8, §11): 168 seeded property-breaking changes that compile and pass the upstream suite
-  (5 reverted fixes + 163 from independent sub-agents in eleven waves) are all reported; 25 + 12 behaviour-preserving refactors
+  (5 reverted fixes + 163 from independent sub-agents in eleven waves) are all reported; 25 + 12 behaviour-preserving refactors and 16 small edits
   raise no alarm; every unit verifies under 8 different SMT seeds; the unchanged tree passes all 20 checks in both tiers.
 """)
 w(s1.rstrip()+"\n")
@@ -353,6 +353,10 @@ repairs before they were committed.
   `if/else` whose both branches carry annotations loses an anchor).
 * **Rename campaign** (`tools/renames.py`, `harmless/RENAMES.json`): every `let`-bound local of every function under contract renamed
   (137 single renames): 94 verify unchanged (the merge follows consistent renames of locals, §2.1), 43 undecided, **0 alarms**.
+* **Small edits** (`harmless/h3_*`: 16 one-minute clean-ups — a renamed local, a flipped comparison, a hoisted sub-expression — each written by a sub-agent
+  for one function, each applied to `/repo` and run against all 20 quick checks): 15 leave every check at exit 0 (Verus re-verifies the edited function,
+  the rename-following merge included), 1 is undecided for two properties (a rename that un-shadows an inner variable: the annotation's name
+  then means the outer one, which the type checker rejects), **0 alarms**.
 * **Independent refactors** (`tools/harmless2.py`, `harmless/`: 12 behaviour-preserving refactors of 15–35 changed lines each,
   written by sub-agents that saw only the source file and were asked for an ordinary maintainer's tidy-up — renamed locals,
   loops turned into `find`/`matches!`, hoisted values, extracted helpers, inverted branches; every public function of the crate
